@@ -173,25 +173,25 @@ Definition starts_c (l : text) : Prop := exists r, l = "c"%char :: r.
 Lemma starts_c_kind l : starts_c l -> line_kind l = KComment.
 Proof. intros (r & ->). reflexivity. Qed.
 
-Lemma header_line_starts_c fv : starts_c (header_line fv).
-Proof. unfold header_line, ascii_replace. cbn. eexists; reflexivity. Qed.
+Lemma header_line_as_found_starts_c fv : starts_c (header_line_as_found fv).
+Proof. unfold header_line_as_found, ascii_replace. cbn. eexists; reflexivity. Qed.
 
-Lemma varname_lines_start_c : forall names i, Forall starts_c (varname_lines i names).
+Lemma varname_lines_as_found_start_c : forall names i, Forall starts_c (varname_lines_as_found i names).
 Proof.
-  induction names as [|nm names IH]; intros i; cbn [varname_lines]; constructor.
+  induction names as [|nm names IH]; intros i; cbn [varname_lines_as_found]; constructor.
   - cbn. eexists; reflexivity.
   - apply IH.
 Qed.
 
-Lemma comment_lines_start_c h names : Forall starts_c (comment_lines h names).
+Lemma comment_lines_as_found_start_c h names : Forall starts_c (comment_lines_as_found h names).
 Proof.
-  unfold comment_lines. apply Forall_app. split.
+  unfold comment_lines_as_found. apply Forall_app. split.
   - destruct h as [h|]; [|constructor]. apply Forall_app. split.
     + rewrite Forall_forall. intros l Hl. apply in_map_iff in Hl as (fv & <- & _).
-      apply header_line_starts_c.
+      apply header_line_as_found_starts_c.
     + constructor; [eexists; reflexivity|constructor].
   - destruct names as [ns|]; [|constructor]. apply Forall_app. split.
-    + apply varname_lines_start_c.
+    + apply varname_lines_as_found_start_c.
     + constructor; [eexists; reflexivity|constructor].
 Qed.
 
@@ -266,19 +266,19 @@ Proof.
   destruct (127 <? code c); [reflexivity|exact H].
 Qed.
 
-Lemma no_break_header_line fv : no_break (fst fv) && no_break (snd fv) = true ->
-  no_break (header_line fv) = true.
+Lemma no_break_header_line_as_found fv : no_break (fst fv) && no_break (snd fv) = true ->
+  no_break (header_line_as_found fv) = true.
 Proof.
-  intros H. apply andb_true_iff in H as [H1 H2]. unfold header_line.
+  intros H. apply andb_true_iff in H as [H1 H2]. unfold header_line_as_found.
   apply no_break_ascii_replace. rewrite !no_break_app, H1, H2. reflexivity.
 Qed.
 
-Lemma no_break_varname_lines : forall names i, forallb no_break names = true ->
-  forallb no_break (varname_lines i names) = true.
+Lemma no_break_varname_lines_as_found : forall names i, forallb no_break names = true ->
+  forallb no_break (varname_lines_as_found i names) = true.
 Proof.
   induction names as [|nm names IH]; intros i H; [reflexivity|].
   cbn [forallb] in H. apply andb_true_iff in H as [H1 H2].
-  cbn [varname_lines forallb]. rewrite IH by exact H2.
+  cbn [varname_lines_as_found forallb]. rewrite IH by exact H2.
   rewrite !no_break_app, no_break_print_Z, H1. reflexivity.
 Qed.
 
@@ -289,22 +289,22 @@ Proof.
   rewrite !no_break_app, no_break_print_Z, IH. reflexivity.
 Qed.
 
-Lemma no_break_comment_lines h names : header_ok h = true -> names_ok names = true ->
-  forallb no_break (comment_lines h names) = true.
+Lemma no_break_comment_lines_as_found h names : header_ok h = true -> names_ok names = true ->
+  forallb no_break (comment_lines_as_found h names) = true.
 Proof.
-  intros Hh Hn. unfold comment_lines. rewrite forallb_app. apply andb_true_iff. split.
+  intros Hh Hn. unfold comment_lines_as_found. rewrite forallb_app. apply andb_true_iff. split.
   - destruct h as [h|]; [|reflexivity]. rewrite forallb_app. apply andb_true_iff. split; [|reflexivity].
     cbn [header_ok] in Hh. rewrite forallb_map. rewrite forallb_forall in *.
-    intros fv Hfv. apply no_break_header_line, Hh, Hfv.
+    intros fv Hfv. apply no_break_header_line_as_found, Hh, Hfv.
   - destruct names as [ns|]; [|reflexivity]. rewrite forallb_app. apply andb_true_iff.
-    split; [|reflexivity]. apply no_break_varname_lines, Hn.
+    split; [|reflexivity]. apply no_break_varname_lines_as_found, Hn.
 Qed.
 
-Lemma no_break_print_lines h names n F : header_ok h = true -> names_ok names = true ->
-  forallb no_break (print_lines h names n F) = true.
+Lemma no_break_print_lines_as_found h names n F : header_ok h = true -> names_ok names = true ->
+  forallb no_break (print_lines_as_found h names n F) = true.
 Proof.
-  intros Hh Hn. unfold print_lines. rewrite !forallb_app.
-  rewrite no_break_comment_lines by assumption. cbn [forallb andb].
+  intros Hh Hn. unfold print_lines_as_found. rewrite !forallb_app.
+  rewrite no_break_comment_lines_as_found by assumption. cbn [forallb andb].
   unfold spec_line. rewrite !no_break_app, !no_break_print_Z. cbn [andb].
   replace (no_break (lit "p cnf ")) with true by reflexivity.
   replace (no_break [SP]) with true by reflexivity. cbn [andb].
@@ -328,13 +328,13 @@ Lemma forallb_impl {A} (p q : A -> bool) l : (forall x, p x = true -> q x = true
 Proof. intros I H. rewrite forallb_forall in *. auto. Qed.
 
 (* the reader gets back exactly the lines the writer produced, under both newline conventions *)
-Lemma read_lines_print u h names n F : header_ok h = true -> names_ok names = true ->
-  read_lines u (print_dimacs h names n F) = print_lines h names n F.
+Lemma read_lines_print_as_found u h names n F : header_ok h = true -> names_ok names = true ->
+  read_lines u (print_dimacs_as_found h names n F) = print_lines_as_found h names n F.
 Proof.
-  intros Hh Hn. pose proof (no_break_print_lines h names n F Hh Hn) as Hnb.
-  unfold read_lines, print_dimacs.
-  assert (E : (if u then universal (unlines (print_lines h names n F))
-               else unlines (print_lines h names n F)) = unlines (print_lines h names n F)).
+  intros Hh Hn. pose proof (no_break_print_lines_as_found h names n F Hh Hn) as Hnb.
+  unfold read_lines, print_dimacs_as_found.
+  assert (E : (if u then universal (unlines (print_lines_as_found h names n F))
+               else unlines (print_lines_as_found h names n F)) = unlines (print_lines_as_found h names n F)).
   { destruct u; [|reflexivity]. apply universal_id, no_cr_unlines.
     eapply forallb_impl; [|exact Hnb]. apply no_break_no_cr. }
   rewrite E. apply split_lines_unlines.
@@ -430,12 +430,12 @@ Proof.
   apply small_of_bound. unfold printable in Hp. lia.
 Qed.
 
-Theorem roundtrip_lines h names n F :
+Theorem roundtrip_lines_as_found h names n F :
   valid n F -> printable n -> printable (len F) ->
-  parse_lines None [] 0 0 (print_lines h names n F) = DOk n F.
+  parse_lines None [] 0 0 (print_lines_as_found h names n F) = DOk n F.
 Proof.
-  intros Hv Pn Pm. unfold print_lines.
-  rewrite parse_lines_comments by apply comment_lines_start_c.
+  intros Hv Pn Pm. unfold print_lines_as_found.
+  rewrite parse_lines_comments by apply comment_lines_as_found_start_c.
   cbn [app]. pose proof (len_nonneg F) as HF. destruct Hv as [Hn Hv].
   rewrite parse_lines_spec; try assumption; try (apply small_of_bound; assumption).
   rewrite parse_lines_clauses.
@@ -444,13 +444,13 @@ Proof.
   - apply (valid_small n F); [split; assumption | exact Pn].
 Qed.
 
-Theorem dimacs_roundtrip_proved u h names n F :
+Theorem dimacs_roundtrip_as_found_proved u h names n F :
   valid n F -> printable n -> printable (len F) ->
   header_ok h = true -> names_ok names = true ->
-  parse_dimacs u (print_dimacs h names n F) = DOk n F.
+  parse_dimacs u (print_dimacs_as_found h names n F) = DOk n F.
 Proof.
-  intros Hv Pn Pm Hh Hn. unfold parse_dimacs. rewrite read_lines_print by assumption.
-  apply roundtrip_lines; assumption.
+  intros Hv Pn Pm Hh Hn. unfold parse_dimacs. rewrite read_lines_print_as_found by assumption.
+  apply roundtrip_lines_as_found; assumption.
 Qed.
 
 Theorem parse_sound_proved u t n F :
@@ -461,8 +461,220 @@ Theorem parse_sound_proved u t n F :
                Forall (Forall (lit_in n)) F.
 Proof. unfold parse_dimacs. apply parse_sound_lines. Qed.
 
-Theorem print_shape_proved u h names n F :
+Theorem print_shape_as_found_proved u h names n F :
   header_ok h = true -> names_ok names = true ->
+  read_lines u (print_dimacs_as_found h names n F) =
+    comment_lines_as_found h names ++ spec_line n (len F) :: map clause_line F /\
+  Forall (fun l => line_kind l = KComment) (comment_lines_as_found h names) /\
+  line_kind (spec_line n (len F)) = KSpec /\
+  split_ws (spec_line n (len F)) = [lit "p"; lit "cnf"; print_Z n; print_Z (len F)] /\
+  Forall (fun l => line_kind l = KData) (map clause_line F).
+Proof.
+  intros Hh Hn. split; [rewrite read_lines_print_as_found by assumption; reflexivity|].
+  split.
+  { eapply Forall_impl; [|apply comment_lines_as_found_start_c]. intros l. apply starts_c_kind. }
+  split; [reflexivity|]. split; [apply spec_line_tokens|].
+  rewrite Forall_forall. intros l Hl. apply in_map_iff in Hl as (c & <- & _). apply clause_line_kind.
+Qed.
+
+(* ------------------------------------------------------------------ *)
+(* the writer after the repair (commit 7278321): within_comment *)
+
+Definition starts_with (p l : text) : Prop := exists r, l = p ++ r.
+
+Lemma no_lf_app a b : no_lf (a ++ b) = no_lf a && no_lf b.
+Proof. unfold no_lf. apply forallb_app. Qed.
+
+(* every line of  p ++ acc ++ s.replace("\n", "\n" + p) ++ "\n"  starts with p *)
+Lemma after_lf_lines p : no_lf p = true -> forall s acc, no_lf acc = true ->
+  Forall (starts_with p) (split_lines (p ++ acc ++ after_lf p s ++ [LF])).
+Proof.
+  intros Hp. induction s as [|c s IH]; intros acc Hacc.
+  - cbn [after_lf app]. rewrite app_assoc. fold (entry_lines (p ++ acc)).
+    rewrite entry_lines_plain by (rewrite no_lf_app, Hp, Hacc; reflexivity).
+    constructor; [exists acc; reflexivity|constructor].
+  - cbn [after_lf]. destruct (is_lf c) eqn:Hc.
+    + replace (p ++ acc ++ (LF :: p ++ after_lf p s) ++ [LF])
+        with ((p ++ acc) ++ LF :: (p ++ [] ++ after_lf p s ++ [LF]))
+        by (cbn [app]; rewrite <- !app_assoc; reflexivity).
+      unfold split_lines. rewrite split_on_piece;
+        [|fold (no_lf (p ++ acc)); rewrite no_lf_app, Hp, Hacc; reflexivity|exact is_lf_LF].
+      constructor; [exists acc; reflexivity|]. apply IH. reflexivity.
+    + replace (p ++ acc ++ (c :: after_lf p s) ++ [LF])
+        with (p ++ (acc ++ [c]) ++ after_lf p s ++ [LF])
+        by (cbn [app]; rewrite <- !app_assoc; reflexivity).
+      apply IH. rewrite no_lf_app, Hacc. unfold no_lf. cbn [forallb]. rewrite Hc. reflexivity.
+Qed.
+
+Lemma universal_app_plain : forall p x, no_cr p = true -> universal (p ++ x) = p ++ universal x.
+Proof.
+  induction p as [|c p IH]; intros x H; [reflexivity|].
+  rewrite no_cr_cons in H. apply andb_true_iff in H as [Hc Hp]. apply negb_true_iff in Hc.
+  cbn [app]. rewrite universal_plain by exact Hc. f_equal. apply IH, Hp.
+Qed.
+
+Lemma after_lf_app_plain p : forall q x, no_lf q = true -> after_lf p (q ++ x) = q ++ after_lf p x.
+Proof.
+  induction q as [|c q IH]; intros x H; [reflexivity|].
+  unfold no_lf in H. cbn [forallb] in H. apply andb_true_iff in H as [Hc Hq]. apply negb_true_iff in Hc.
+  cbn [app after_lf]. rewrite Hc. f_equal. apply IH, Hq.
+Qed.
+
+Lemma within_comment_prefixed p x : no_lf p = true -> no_cr p = true ->
+  within_comment p (p ++ x) = p ++ after_lf p (universal x).
+Proof.
+  intros H1 H2. unfold within_comment. rewrite universal_app_plain by exact H2.
+  apply after_lf_app_plain, H1.
+Qed.
+
+(* the lines of an entry  _within_comment(p + x, p) + "\n" *)
+Lemma within_comment_lines p x : no_lf p = true -> no_cr p = true ->
+  Forall (starts_with p) (entry_lines (within_comment p (p ++ x))).
+Proof.
+  intros H1 H2. rewrite within_comment_prefixed by assumption. unfold entry_lines.
+  rewrite <- app_assoc. apply (after_lf_lines p H1 (universal x) []). reflexivity.
+Qed.
+
+(* no carriage return survives *)
+Lemma no_cr_after_lf p : no_cr p = true -> forall s, no_cr s = true -> no_cr (after_lf p s) = true.
+Proof.
+  intros Hp. induction s as [|c s IH]; intros H; [reflexivity|].
+  rewrite no_cr_cons in H. apply andb_true_iff in H as [Hc Hs].
+  cbn [after_lf]. destruct (is_lf c).
+  - change (LF :: p ++ after_lf p s) with ([LF] ++ p ++ after_lf p s).
+    rewrite !no_cr_app, Hp, IH by exact Hs. reflexivity.
+  - rewrite no_cr_cons, Hc, IH by exact Hs. reflexivity.
+Qed.
+
+Lemma no_cr_within_comment p s : no_cr p = true -> no_cr (within_comment p s) = true.
+Proof. intros Hp. unfold within_comment. apply no_cr_after_lf; [exact Hp|apply no_cr_universal]. Qed.
+
+Lemma no_cr_ascii_replace s : no_cr s = true -> no_cr (ascii_replace s) = true.
+Proof.
+  unfold no_cr, ascii_replace. rewrite forallb_map. intros H.
+  rewrite forallb_forall in *. intros c Hc. specialize (H c Hc).
+  destruct (127 <? code c); [reflexivity|exact H].
+Qed.
+
+(* encode('ascii','replace') neither makes nor removes a line break *)
+Lemma is_lf_replace c : is_lf (if 127 <? code c then "?"%char else c) = is_lf c.
+Proof.
+  destruct (127 <? code c) eqn:E; [|reflexivity].
+  unfold is_lf. destruct (Ascii.eqb_spec c LF) as [->|N]; [vm_compute in E; discriminate E|reflexivity].
+Qed.
+
+Lemma entry_lines_ascii_replace s : entry_lines (ascii_replace s) = map ascii_replace (entry_lines s).
+Proof.
+  unfold entry_lines, split_lines, ascii_replace.
+  rewrite <- (split_on_map is_lf _ is_lf_replace). rewrite map_app. reflexivity.
+Qed.
+
+Lemma starts_c_of_prefix l : starts_with (lit "c ") l -> starts_c l.
+Proof. intros (r & ->). eexists; reflexivity. Qed.
+
+Lemma header_entry_lines_start_c fv : Forall starts_c (entry_lines (header_entry fv)).
+Proof.
+  unfold header_entry. rewrite entry_lines_ascii_replace.
+  rewrite Forall_forall. intros l Hl. apply in_map_iff in Hl as (l0 & <- & Hl0).
+  pose proof (within_comment_lines (lit "c ") (fst fv ++ lit ": " ++ snd fv) eq_refl eq_refl) as H.
+  rewrite Forall_forall in H. destruct (H l0 Hl0) as (r & ->).
+  unfold ascii_replace. rewrite map_app. eexists; reflexivity.
+Qed.
+
+Lemma varname_entries_lines_start_c : forall names i,
+  Forall starts_c (concat (map entry_lines (varname_entries i names))).
+Proof.
+  induction names as [|nm names IH]; intros i; [constructor|].
+  cbn [varname_entries map concat]. apply Forall_app. split; [|apply IH].
+  change (lit "c varname " ++ print_Z i ++ [SP] ++ nm) with (lit "c " ++ lit "varname " ++ print_Z i ++ [SP] ++ nm).
+  eapply Forall_impl; [|apply within_comment_lines; reflexivity]. apply starts_c_of_prefix.
+Qed.
+
+Lemma comment_lines_entries h names :
+  comment_lines h names = concat (map entry_lines (comment_entries h names)).
+Proof. apply split_lines_unlines_entries. Qed.
+
+Lemma comment_lines_start_c h names : Forall starts_c (comment_lines h names).
+Proof.
+  rewrite comment_lines_entries. unfold comment_entries. rewrite map_app, concat_app.
+  assert (Hc : Forall starts_c (concat (map entry_lines [lit "c"]))).
+  { cbn. constructor; [eexists; reflexivity|constructor]. }
+  apply Forall_app. split.
+  - destruct h as [h|]; [|constructor]. rewrite map_app, concat_app. apply Forall_app. split; [|exact Hc].
+    induction h as [|fv h IH]; [constructor|]. cbn [map concat]. apply Forall_app.
+    split; [apply header_entry_lines_start_c|exact IH].
+  - destruct names as [ns|]; [|constructor]. rewrite map_app, concat_app. apply Forall_app.
+    split; [apply varname_entries_lines_start_c|exact Hc].
+Qed.
+
+Lemma no_cr_varname_entries : forall names i, forallb no_cr (varname_entries i names) = true.
+Proof.
+  induction names as [|nm names IH]; intros i; [reflexivity|].
+  cbn [varname_entries forallb]. rewrite IH, no_cr_within_comment; reflexivity.
+Qed.
+
+Lemma no_cr_comment_entries h names : forallb no_cr (comment_entries h names) = true.
+Proof.
+  unfold comment_entries. rewrite forallb_app. apply andb_true_iff. split.
+  - destruct h as [h|]; [|reflexivity]. rewrite forallb_app. apply andb_true_iff. split; [|reflexivity].
+    rewrite forallb_map. apply forallb_true. intros fv _. unfold header_entry.
+    apply no_cr_ascii_replace, no_cr_within_comment. reflexivity.
+  - destruct names as [ns|]; [|reflexivity]. rewrite forallb_app, no_cr_varname_entries. reflexivity.
+Qed.
+
+Lemma no_break_spec_line n m : no_break (spec_line n m) = true.
+Proof. unfold spec_line. rewrite !no_break_app, !no_break_print_Z. reflexivity. Qed.
+
+Lemma concat_entry_lines_plain : forall ls, forallb no_lf ls = true -> concat (map entry_lines ls) = ls.
+Proof.
+  induction ls as [|l ls IH]; intros H; [reflexivity|].
+  cbn [forallb] in H. apply andb_true_iff in H as [Hl Hls].
+  cbn [map concat]. rewrite entry_lines_plain, IH by assumption. reflexivity.
+Qed.
+
+(* the reader gets: the comment lines, the problem line, the clause lines --
+   for EVERY header and EVERY list of names, under both newline conventions *)
+Lemma read_lines_print u h names n F :
+  read_lines u (print_dimacs h names n F) =
+  comment_lines h names ++ spec_line n (len F) :: map clause_line F.
+Proof.
+  unfold read_lines, print_dimacs, print_entries.
+  assert (Hb : forallb no_break (spec_line n (len F) :: map clause_line F) = true).
+  { cbn [forallb]. rewrite no_break_spec_line, forallb_map. apply forallb_true.
+    intros c _. apply no_break_clause_line. }
+  assert (E : (if u then universal (unlines (comment_entries h names ++ [spec_line n (len F)] ++ map clause_line F))
+               else unlines (comment_entries h names ++ [spec_line n (len F)] ++ map clause_line F)) =
+              unlines (comment_entries h names ++ [spec_line n (len F)] ++ map clause_line F)).
+  { destruct u; [|reflexivity]. apply universal_id, no_cr_unlines.
+    rewrite forallb_app, no_cr_comment_entries. cbn [andb app].
+    eapply forallb_impl; [|exact Hb]. apply no_break_no_cr. }
+  rewrite E, split_lines_unlines_entries, map_app, concat_app, <- comment_lines_entries. f_equal.
+  cbn [app]. apply concat_entry_lines_plain. eapply forallb_impl; [|exact Hb]. apply no_break_no_lf.
+Qed.
+
+(* the reader on any comment lines followed by the problem line and the clause lines *)
+Theorem roundtrip_after_comments cl n F :
+  Forall starts_c cl -> valid n F -> printable n -> printable (len F) ->
+  parse_lines None [] 0 0 (cl ++ spec_line n (len F) :: map clause_line F) = DOk n F.
+Proof.
+  intros Hc Hv Pn Pm. rewrite parse_lines_comments by exact Hc.
+  pose proof (len_nonneg F) as HF. destruct Hv as [Hn Hv].
+  rewrite parse_lines_spec; try assumption; try (apply small_of_bound; assumption).
+  rewrite parse_lines_clauses.
+  - rewrite Z.add_0_l, Z.eqb_refl. reflexivity.
+  - exact Hv.
+  - apply (valid_small n F); [split; assumption | exact Pn].
+Qed.
+
+Theorem dimacs_roundtrip_proved u h names n F :
+  valid n F -> printable n -> printable (len F) ->
+  parse_dimacs u (print_dimacs h names n F) = DOk n F.
+Proof.
+  intros Hv Pn Pm. unfold parse_dimacs. rewrite read_lines_print.
+  apply roundtrip_after_comments; try assumption. apply comment_lines_start_c.
+Qed.
+
+Theorem print_shape_proved u h names n F :
   read_lines u (print_dimacs h names n F) =
     comment_lines h names ++ spec_line n (len F) :: map clause_line F /\
   Forall (fun l => line_kind l = KComment) (comment_lines h names) /\
@@ -470,9 +682,56 @@ Theorem print_shape_proved u h names n F :
   split_ws (spec_line n (len F)) = [lit "p"; lit "cnf"; print_Z n; print_Z (len F)] /\
   Forall (fun l => line_kind l = KData) (map clause_line F).
 Proof.
-  intros Hh Hn. split; [rewrite read_lines_print by assumption; reflexivity|].
-  split.
+  split; [apply read_lines_print|]. split.
   { eapply Forall_impl; [|apply comment_lines_start_c]. intros l. apply starts_c_kind. }
   split; [reflexivity|]. split; [apply spec_line_tokens|].
   rewrite Forall_forall. intros l Hl. apply in_map_iff in Hl as (c & <- & _). apply clause_line_kind.
+Qed.
+
+(* ------------------------------------------------------------------ *)
+(* the two writers agree when no field or name has a line break
+   ("output is unchanged for texts without line breaks") *)
+
+Lemma after_lf_id p : forall s, no_lf s = true -> after_lf p s = s.
+Proof. intros s H. rewrite <- (app_nil_r s) at 1. rewrite after_lf_app_plain by exact H. apply app_nil_r. Qed.
+
+Lemma within_comment_id p s : no_break s = true -> within_comment p s = s.
+Proof.
+  intros H. unfold within_comment. rewrite universal_id by (apply no_break_no_cr, H).
+  apply after_lf_id, no_break_no_lf, H.
+Qed.
+
+Lemma header_entry_as_found fv : no_break (fst fv) && no_break (snd fv) = true ->
+  header_entry fv = header_line_as_found fv.
+Proof.
+  intros H. apply andb_true_iff in H as [H1 H2]. unfold header_entry, header_line_as_found.
+  rewrite within_comment_id; [reflexivity|]. rewrite !no_break_app, H1, H2. reflexivity.
+Qed.
+
+Lemma varname_entries_as_found : forall names i, forallb no_break names = true ->
+  varname_entries i names = varname_lines_as_found i names.
+Proof.
+  induction names as [|nm names IH]; intros i H; [reflexivity|].
+  cbn [forallb] in H. apply andb_true_iff in H as [H1 H2].
+  cbn [varname_entries varname_lines_as_found]. rewrite IH by exact H2. f_equal.
+  apply within_comment_id. rewrite !no_break_app, no_break_print_Z, H1. reflexivity.
+Qed.
+
+Lemma comment_entries_as_found h names : header_ok h = true -> names_ok names = true ->
+  comment_entries h names = comment_lines_as_found h names.
+Proof.
+  intros Hh Hn. unfold comment_entries, comment_lines_as_found. f_equal.
+  - destruct h as [h|]; [|reflexivity]. f_equal. cbn [header_ok] in Hh.
+    apply map_ext_in. intros fv Hfv. rewrite forallb_forall in Hh. apply header_entry_as_found, Hh, Hfv.
+  - destruct names as [ns|]; [|reflexivity]. f_equal. apply varname_entries_as_found, Hn.
+Qed.
+
+Theorem print_dimacs_unchanged h names n F : header_ok h = true -> names_ok names = true ->
+  print_dimacs h names n F = print_dimacs_as_found h names n F /\
+  comment_lines h names = comment_lines_as_found h names.
+Proof.
+  intros Hh Hn. unfold print_dimacs, print_dimacs_as_found, print_entries, print_lines_as_found, comment_lines.
+  rewrite comment_entries_as_found by assumption. split; [reflexivity|].
+  apply split_lines_unlines. eapply forallb_impl; [|apply no_break_comment_lines_as_found; assumption].
+  apply no_break_no_lf.
 Qed.
